@@ -207,18 +207,15 @@ def check_cmap(spec, cx):
     for s in spec["subtables"]:
         m = G.expand_segs(s["segs"]) if s["fmt"] != 14 else None
         if s["fmt"] in (12, 13) and not m:
-            cx.acc.exclude("cmap%d-empty-subtable (finding C02-cmap12-empty: compile raises IndexError)" % s["fmt"])
-            continue
+            cx.label("cmap%d:empty-subtable" % s["fmt"])
         if s["fmt"] == 2 and m and max(m) < 256:
-            cx.acc.exclude("cmap2-only-one-byte-codes (finding C02-cmap2-single-byte-only: mappings lost)")
-            continue
+            cx.label("cmap2:one-byte-codes-only")
         if s["fmt"] == 2 and m:
             groups = {}
             for c, g in m.items():
                 groups.setdefault(c >> 8, []).append(g)
             if any(min(v) > 0x7FFF for v in groups.values()):
-                cx.acc.exclude("cmap2-subheader-with-all-gids-over-32767 (finding C02-cmap2-high-gids: compile raises struct.error)")
-                continue
+                cx.label("cmap2:subheader-all-gids>32767")
         subs.append((s, m))
     font = new_font(n)
     names = glyph_names(n)
@@ -238,18 +235,10 @@ def check_cmap(spec, cx):
             for sel, defaults, nondef in s["uvs"]:
                 lst = []
                 e = {}
-                dcps = sorted({c for start, cnt in defaults for c in range(start, start + cnt)})
-                run = 0
-                kept = []
-                for k, c in enumerate(dcps):
-                    run = run + 1 if k and dcps[k - 1] == c - 1 and kept and kept[-1] == c - 1 else 1
-                    if run > 256:
-                        # finding C02-cmap14-default-run-over-256: compile raises struct.error; break the run
-                        cx.acc.exclude("cmap14-default-uvs-run-longer-than-256 (finding: compile raises struct.error)")
-                        run = 0
-                        continue
-                    kept.append(c)
-                if any(b == a + 1 for a, b in zip(kept, kept[1:])) and _longest_run(kept) == 256:
+                kept = sorted({c for start, cnt in defaults for c in range(start, start + cnt)})
+                if kept and _longest_run(kept) > 256:
+                    cx.label("cmap14:default-run>256")
+                elif kept and _longest_run(kept) == 256:
                     cx.label("cmap14:default-run=256")
                 for c in kept:
                     lst.append((c, None))
@@ -348,11 +337,16 @@ def check_cmap(spec, cx):
         cx.label("cmap:shared-subtable-data")
 
     # --- HarfBuzz (chooses one Unicode subtable)
-    cand = [e for e in expected if e[0][:2] in _HB_ORDER and e[1] not in (2, 14)]
+    # HarfBuzz selects by (platform, encoding) only; if the subtable it selects is one whose
+    # format it does not implement (2) the font has no usable cmap for it: nothing to compare.
+    cand = [e for e in expected if e[0][:2] in _HB_ORDER and e[1] != 14]
     if any(e[0][:2] == (3, 0) for e in expected):
         cand = []  # HarfBuzz prefers a symbol subtable and gives it symbol-font semantics
+    cand.sort(key=lambda e: _HB_ORDER.index(e[0][:2]))
+    if cand and cand[0][1] == 2:
+        cx.label("cmap:harfbuzz-selects-fmt2-skipped")
+        cand = []
     if cand:
-        cand.sort(key=lambda e: _HB_ORDER.index(e[0][:2]))
         (pid, eid, lang), fmt, m = cand[0]
         hb = hb_font({"cmap": data, "head": head_bytes(), "maxp": maxp_bytes(n)})
         cx.label("cmap:harfbuzz")
@@ -1804,8 +1798,7 @@ def check_colr(spec, cx):
     gmap = font.getReverseGlyphMap()
     if spec["version"] == 0:
         if not any(ls for b, ls in spec["v0"]):
-            cx.acc.exclude("colr-v0-no-layer-records-at-all (finding C02-colr0-empty-layers: base glyph records are dropped)")
-            return False
+            cx.label("colr:v0-no-layer-records-at-all")
         layers = {names[b]: [(names[g], p) for g, p in ls] for b, ls in spec["v0"]}
         colr = cx.call("build", buildCOLR, layers, version=0, glyphMap=gmap)
         data = cx.call("compile", colr.compile, font)
